@@ -77,6 +77,19 @@ def check(R):
                  'Role::Responder', f'{sorted(map(str, s))[:5]}', pr.where(t.bb))
         s = prims.sources(pr, t.d['a'][1])
         R.expect('P10', pr.fn, 'the new exchange takes the id of the received message', mentions(s, 'exch_id') and mentions(s, 'proto'), 'rx_header.proto.exch_id', f'{sorted(map(str, s))[:5]}', pr.where(t.bb))
+        # ... and which message kinds may open one is a conjunction of both exclusions: neither a standalone ACK nor a Secure Channel status
+        # report creates a responder exchange (both are answers; an exchange opened for one has no handler and sits in the RX slot)
+        ne = R.body('transport::exchange::MessageMeta::is_new_exchange')
+        nf = prims.nonfalse_result_bbs(ne)
+        R.floor('non-false results of is_new_exchange', len(nf), 1)
+        for callee, what in (('transport::exchange::MessageMeta::is_standalone_ack', 'a standalone ACK'), ('transport::exchange::MessageMeta::is_sc_status', 'a Secure Channel status report')):
+            cs = ne.calls(callee)
+            dep = False
+            for t in cs:
+                tainted, sw, ret, _ = prims.forward_taint(ne, {t.d['d'][0]})
+                dep = dep or ret or bool(sw)
+            R.expect('P9', ne.fn, f'whether a message may open an exchange depends on its being {what}', dep, f'{callee.split("::")[-1]}() flows into the answer (value or branch)',
+                     f'{callee.split("::")[-1]}() is ' + ('not called' if not cs else 'called but its result does not reach the answer') + f': {what} is allowed to create a responder exchange')
         noex = [i for i, j, st in pr.stmts() if st[1].get('op') == 'agg' and st[1].get('adt') == 'error::ErrorCode' and st[1].get('var') == 'NoExchange']
         R.expect('P2', pr.fn, 'answers to unknown exchanges are refused (NoExchange)', bool(noex), 'NoExchange constructed', 'NoExchange not constructed')
 
@@ -99,6 +112,21 @@ def check(R):
         R.expect('P3', at.fn, 'accept timeout marks the exchange Dropped and notifies the closer', bool(dropped) and not prims.precedes(at, dropped, trues)
                  and any(c.endswith('Notification::notify') or c.endswith('::notify') for c in at.calls_summary), 'role = Dropped; exchange_dropped.notify()', 'missing Dropped write / notify')
         R.cut('P2', at, 'discard on accept timeout', trues, 'the exchange waited longer than the accept deadline', lambda: R.call_guard(at, 'transport::mrp::ReliableMessage::has_rx_timed_out'))
+        # the deadline needs its starting point: every message that ReliableMessage::post_recv lets through stamps received_at -
+        # also one that asks for no acknowledgement (over TCP / BTP that is every message), or has_rx_timed_out never fires for it and
+        # an un-accepted exchange keeps the single RX slot for good
+        mp = R.body('transport::mrp::ReliableMessage::post_recv')
+        stamps = [i for i, j, st in mp.field_writes('received_at:transport::mrp::ReliableMessage')]
+        R.floor('writes of ReliableMessage.received_at in post_recv', len(stamps), 1)
+        oks_mp = ok_return_bbs(mp)
+        miss = prims.precedes(mp, stamps, oks_mp)
+        R.expect('P3', mp.fn, 'every message accepted by ReliableMessage::post_recv stamps received_at (the start of the accept deadline)', bool(oks_mp) and not miss,
+                 'received_at written on every path to Ok', f'Ok at {[mp.where(x) for x in miss][:2]} is reachable without stamping received_at: the accept deadline of that message never fires')
+        ht = R.body('transport::mrp::ReliableMessage::has_rx_timed_out')
+        R.expect('P9', ht.fn, 'the accept deadline is computed from received_at', bool(prims.field_read_locals(ht, 'received_at:transport::mrp::ReliableMessage')) or
+                 any(isinstance(x, str) and x == '.received_at:transport::mrp::ReliableMessage' for i, j, st in ht.stmts() for x in (st[1].get('pl') or [])[1:]) or
+                 any(isinstance(x, str) and x == '.received_at:transport::mrp::ReliableMessage' for t in ht.calls() for a in t.d['a'] if op_place(a) for x in op_place(a)[1:]),
+                 'reads self.received_at', 'has_rx_timed_out no longer reads received_at')
         orp = closure_in(R, TR + '::handle_orphaned_rx_packet', ['Sessions::get_exch_for_rx'])
         LK = 'transport::session::Sessions::get_exch_for_rx'
         fe_ = _fail_edges(R, orp, LK)
